@@ -10,6 +10,7 @@ MSG = "include/iora/network/dns/dns_message.hpp"
 TYP = "include/iora/network/dns/dns_types.hpp"
 CACHE = "include/iora/network/dns/dns_cache.hpp"
 EXP = "include/iora/util/expiring_cache.hpp"
+TRANSPORT = "include/iora/network/dns/dns_transport.hpp"
 
 
 def _const(src, name):
@@ -28,6 +29,7 @@ def gen(repo):
     typ = read(repo, TYP)
     cache = read(repo, CACHE)
     exp = read(repo, EXP)
+    tsp = read(repo, TRANSPORT)
 
     header_size = _const(typ, "DNS_HEADER_SIZE")
     max_label = _const(typ, "DNS_MAX_LABEL_SIZE")
@@ -171,7 +173,25 @@ def gen(repo):
     if not re.search(r"std::transform\s*\([^;]*::tolower\s*\)", fq):
         raise TranslateError("DnsCacheKey::fromQuestion: lower-casing not found")
 
-    t = HEADER % ", ".join([MSG, TYP, CACHE, EXP])
+    # --- DnsTransport::processResponse: everything of the parser is caught; the failed query is keyed by the first two bytes
+    pr = cxxscan.function_body(tsp, "processResponse")
+    m = re.search(r"\btry\s*\{", pr)
+    if not m:
+        raise TranslateError("processResponse: try block not found")
+    tend = cxxscan.match_brace(pr, m.end() - 1)
+    if not re.search(r"DnsMessage::parse\s*\(\s*data\s*,\s*size\s*\)", pr[m.end():tend]):
+        raise TranslateError("processResponse: DnsMessage::parse(data, size) is not inside the try block")
+    after = pr[tend + 1:]
+    if not re.match(r"\s*catch\s*\(\s*const\s+std::exception\s*&", after):
+        raise TranslateError("processResponse: the try block is not followed by catch (const std::exception &)")
+    resp_min = cxxscan.find_int(r"if\s*\(\s*size\s*>=\s*(\w+)\s*\)\s*\{\s*std::uint16_t\s+queryId\s*=\s*\(\s*data\[0\]\s*<<\s*8\s*\)\s*\|\s*data\[1\]\s*;", after,
+                                "processResponse: id of a rejected message")
+    if not re.search(r"QueryKey\s+key\s*\(\s*queryId\s*,\s*sourceServer\s*,\s*sourcePort\s*\)\s*;[^}]*completeQuery\s*\(\s*key\s*,\s*error\s*\)", after, re.S):
+        raise TranslateError("processResponse: completeQuery(key, error) for the extracted id not found")
+    if not re.search(r"QueryKey\s+key\s*\(\s*result\.header\.id\s*,\s*sourceServer\s*,\s*sourcePort\s*\)", pr[m.end():tend]):
+        raise TranslateError("processResponse: the success path does not key the query by result.header.id")
+
+    t = HEADER % ", ".join([MSG, TYP, CACHE, EXP, TRANSPORT])
     t += "namespace Iora.Gen.Dns\n"
     t += "/-- `constants::` of dns_types.hpp -/\n"
     t += "def headerSize : Nat := %d\ndef maxLabel : Nat := %d\ndef maxName : Nat := %d\n" % (header_size, max_label, max_name)
@@ -202,5 +222,7 @@ def gen(repo):
     t += "def purgeInclusive : Bool := %s\n" % _lean_bool(purge_incl)
     t += "/-- `DnsCache::put` / `putNegative` drop the entry instead of caching when the TTL is 0 -/\n"
     t += "def zeroTtlNotCachedPut : Bool := %s\ndef zeroTtlNotCachedNeg : Bool := %s\n" % (_lean_bool(zero_put), _lean_bool(zero_neg))
+    t += "/-- `processResponse`: a rejected message needs this many bytes for its query id `(data[0] << 8) | data[1]` to be extracted -/\n"
+    t += "def respMinIdBytes : Nat := %d\n" % resp_min
     t += "end Iora.Gen.Dns\n"
     return "IoraModel/Gen/Dns.lean", t
